@@ -150,6 +150,16 @@ def trusted(text):
     TRUSTED.append(text)
 
 
+ON_CONSTRUCT = {}      # class -> Clause: defining equations of ghost functions, assumed for every newly constructed instance
+
+
+def ghost_definition(cls, label, text, note):
+    """ghost *functions* (inner, depth, in_chain, dirmax, box) are defined from fields that only constructors write; their defining
+    equations for a new object are assumed when its constructor returns (listed in the trusted base)"""
+    ON_CONSTRUCT[cls] = Clause(label, text, "")
+    TRUSTED.append(note)
+
+
 def field_type(cls, field):
     from . import src
     if cls:
